@@ -179,6 +179,9 @@ const (
 	c39BKeepNone
 	c39BLabels
 	c39BRangeMut
+	c39BRangeSetLater
+	c39BRangeSetEarlier
+	c39BRangeDelLater
 	c39SReset
 	c39SAdd
 	c39SSort
@@ -211,10 +214,11 @@ func c39Alphabet(level int) []c39Op {
 	for _, n := range names {
 		ops = append(ops, c39Op{name: "B.Del(" + n + ")", kind: c39BDel, n: n})
 	}
-	ops = append(ops, c39Op{name: "B.Keep(a)", kind: c39BKeepA})
 	if level >= 0 {
-		ops = append(ops, c39Op{name: "B.Keep()", kind: c39BKeepNone})
+		ops = append(ops, c39Op{name: "B.Keep(a)", kind: c39BKeepA}, c39Op{name: "B.Keep()", kind: c39BKeepNone},
+			c39Op{name: "B.Range(at b: Set(a,x))", kind: c39BRangeSetEarlier})
 	}
+	ops = append(ops, c39Op{name: "B.Range(at a: Set(b,x))", kind: c39BRangeSetLater}, c39Op{name: "B.Range(at a: Del(b))", kind: c39BRangeDelLater})
 	ops = append(ops, c39Op{name: "cur=B.Labels()", kind: c39BLabels}, c39Op{name: "B.Range(mutating)", kind: c39BRangeMut},
 		c39Op{name: "S.Reset()", kind: c39SReset})
 	for _, n := range names {
@@ -402,6 +406,37 @@ func (y *c39Sys) apply(op c39Op) {
 		for _, p := range want {
 			y.mb[p.N+suffix] = p.V
 			y.mbAdded = true
+		}
+	case c39BRangeSetLater, c39BRangeSetEarlier, c39BRangeDelLater:
+		// the callback touches ANOTHER label of the builder (a later one, an earlier one) while
+		// the iteration is under way; Range must still call it for every label held at the call,
+		// exactly once (the outcome does not depend on the visiting order)
+		want := c39FromMap(y.mb)
+		var seen c39Set
+		y.b.Range(func(l Label) {
+			seen = append(seen, c39Pair{l.Name, l.Value})
+			switch {
+			case op.kind == c39BRangeSetLater && l.Name == "a":
+				y.b.Set("b", "x")
+			case op.kind == c39BRangeSetEarlier && l.Name == "b":
+				y.b.Set("a", "x")
+			case op.kind == c39BRangeDelLater && l.Name == "a":
+				y.b.Del("b")
+			}
+		})
+		sort.Slice(seen, func(i, j int) bool { return seen[i].N < seen[j].N })
+		if !seen.equal(want) {
+			y.fail("builder-range-mismatch", "Builder.Range (callback of %s) visited %s, builder holds %s", op.name, seen.key(nil), want.key(nil))
+		}
+		_, hasA := want.get("a")
+		_, hasB := want.get("b")
+		switch {
+		case op.kind == c39BRangeSetLater && hasA:
+			y.mb["b"], y.mbAdded = "x", true
+		case op.kind == c39BRangeSetEarlier && hasB:
+			y.mb["a"], y.mbAdded = "x", true
+		case op.kind == c39BRangeDelLater && hasA:
+			delete(y.mb, "b")
 		}
 	case c39SReset:
 		y.s.Reset()
@@ -917,7 +952,7 @@ func TestVerifC39(t *testing.T) {
 		an = append(an, o.name)
 	}
 	r.Set("alphabet", an)
-	r.Set("rule", fmt.Sprintf("every operation sequence of length <= depth over the operation alphabet (%d ops; names a,b; values \"\", x, 254-byte and 255-byte strings; Builder Reset/Set/Del/Keep/Labels/mutating Range, ScratchBuilder Reset/Add/Sort/Assign/Labels/Overwrite, constructors, WithoutEmpty, symbol-table rebuild, Copy) on fresh objects, spaces %+v; after each sequence all observables of the current label set, of earlier results, of Builder.Labels() and ScratchBuilder.Labels() are compared with a sorted pair-list model, Equal/Compare/Hash/Bytes are cross-checked between all label sets of the sequence and 9 reference sets, and a digest of the observables (no hashes/opaque bytes) per group of sequences is compared between the three build variants by the runner. "+
+	r.Set("rule", fmt.Sprintf("every operation sequence of length <= depth over the operation alphabet (%d ops; names a,b; values \"\", x, 254-byte and 255-byte strings; Builder Reset/Set/Del/Keep/Labels/Range with callbacks that rename every label, Set a later / an earlier label, Del a later label, ScratchBuilder Reset/Add/Sort/Assign/Labels/Overwrite, constructors, WithoutEmpty, symbol-table rebuild, Copy) on fresh objects, spaces %+v; after each sequence all observables of the current label set, of earlier results, of Builder.Labels() and ScratchBuilder.Labels() are compared with a sorted pair-list model, Equal/Compare/Hash/Bytes are cross-checked between all label sets of the sequence and 9 reference sets, and a digest of the observables (no hashes/opaque bytes) per group of sequences is compared between the three build variants by the runner. "+
 		"distinct_outcomes = distinct observable renderings; distinct_nontrivial = the same (every rendering is a non-empty final state)", len(an), spaces))
 	r.Assume("ScratchBuilder.Labels/Overwrite and the constructors are only used with unique, sorted names (their documented precondition); Builder.Keep only without labels Set since Reset")
 	r.Assume("ScratchBuilder is only driven through its usage protocol Reset -> (Add*/Sort | Assign) -> Labels/Overwrite*; outside of it (Add after Labels or Assign, Assign after Add, Overwrite after Assign) the implementations are documented differently and do differ")
